@@ -26,13 +26,15 @@ What is OUTSIDE (exercised by family `hostile`, not proved): that these are ALL 
 allocating sites of the Go code; the Go allocator (`runtime.MemStats.TotalAlloc`, the library's
 fixed chunk sizes of 10^4 elements / 10^6 bytes), goroutine stack growth (about 0.5 KB per nesting
 level, `fatal error: stack overflow` is not recoverable), the internals of vmihailenco/msgpack and
-encoding/json, the whole JSON layer (no JSON model: F4 is tied by the family only), header strings
-(C19 has the header grammar), and AEAD key sizes (`Add3P` on a token whose tail is not 32 bytes).
+encoding/json, the whole JSON layer (no JSON model: F4 is tied by the family only), the TIME header
+parsing takes (sizes are bounded: `header_no_amplification`; C19 has the grammar), and AEAD key sizes (`Add3P` on a token whose tail is not 32 bytes).
 Tie: family `hostile` (Driver/OpsHostile.lean, harness/fam_hostile.go).
 -/
 import Macaroon.Lemmas.Hostile
 import Macaroon.Lemmas.HostileNested
 import Macaroon.Lemmas.HostileBytes
+import Macaroon.Lemmas.HeaderBounds
+import Macaroon.Lemmas.ErrorCount
 import Macaroon.Token.Concrete
 
 namespace Macaroon.Props.C12
@@ -96,6 +98,42 @@ theorem typed_payload_no_amplification :
     (∀ fuel bs m, decodeMac fuel bs = some m → cavBytesList m.cavs ≤ 3 * bs.length) ∧
     (∀ fuel bs dk cs, decodeTicket fuel bs = some (dk, cs) → cavBytesList cs ≤ 3 * bs.length) :=
   decode_bytes
+
+/-! ### (b) header strings and the error value -/
+
+/-- header strings: Base64 decoding never lengthens, so the tokens `Parse` returns are, together,
+no longer than the header; the bundle tokeniser makes at most one token per comma-separated part
+(`≤ |h| + 1` tokens), and the token texts, as well as the decoded payloads handed to `Decode`, are
+together no longer than the header -/
+theorem header_no_amplification (h : List Char) :
+    (∀ s bs, Base64.decode s = some bs → bs.length ≤ s.length) ∧
+    (∀ toks, Header.parse h = .ok toks → (toks.map List.length).sum ≤ h.length) ∧
+    (Header.parseToks h).length ≤ h.length + 1 ∧
+    ((Header.parseToks h).map fun t => t.str.length).sum + (Header.parseToks h).length ≤ h.length + 1 ∧
+    (((Header.parseToks h).filterMap Header.Tok.raw?).map List.length).sum + (Header.parseToks h).length ≤ h.length + 1 :=
+  ⟨Base64.decode_length_le, Header.parse_length_le h, (Header.parseToks_bounds h).1,
+   (Header.parseToks_bounds h).2.1, (Header.parseToks_bounds h).2.2⟩
+
+/-- the error value of clearing is linear in what was decoded (model side of F18 / F20): one caveat
+answers one request with at most one error leaf per caveat it contains (itself and, for a
+conditional, its contents at every depth); `Validate` over a request list returns at most the
+requests' own well-formedness errors plus `cavCountList cs` leaves per request -/
+theorem validate_error_count (cs : List (Cav Bytes)) (rs : List Access) :
+    (∀ c a, (prohibits c a : Errs).length ≤ cavCount (c : Cav Bytes)) ∧
+    (validate cs rs).length ≤ (rs.map fun a => a.wf.length).sum + rs.length * cavCountList cs :=
+  ⟨prohibits_len, validate_len cs rs⟩
+
+/-- … hence, for requests that report at most one well-formedness error — every `flyio.Access`, every
+discharge request — at most `|rs| · (cavCountList cs + 1)` leaves; with `typed_no_amplification`
+(`cavCountList cs < |input|`) the error list of clearing a decoded set is bounded by the number of
+requests times the input length -/
+theorem validate_error_count_bounded (cs : List (Cav Bytes)) (rs : List Access)
+    (hwf : ∀ a ∈ rs, a.wf.length ≤ 1) : (validate cs rs).length ≤ rs.length * (cavCountList cs + 1) :=
+  validate_len_wf cs rs hwf
+
+/-- the hypothesis holds of every `flyio.Access` -/
+theorem flyio_access_one_wf_error (f : Flyio.Req) (s : Int) (n : Nat) : (f.toAccess s n).wf.length ≤ 1 :=
+  toAccess_wf_len f s n
 
 /-! ### (a) nesting: accepted inputs are within the budget, deeper ones are refused -/
 
@@ -265,6 +303,14 @@ example : Nested (Cav.unregistered 99 [0x81, 0xa1, 0x61, 0x01] : Cav Bytes)
 -- wrapper, a third-party caveat with 1 + 2 + 3 bytes
 example : cavBytesList [.volumes [([0x61], 3)],
     .ifPresent false (.cons (.unregistered 99 [0x81, 0xa1, 0x61, 0x01]) .nil) 0, .tp [1] [2, 2] [3, 3, 3]] = 12 := by decide
+-- header: the hypothesis of the `Parse` clause, and the bound attained by the tokeniser on `,,`
+example : Header.parse "FlyV1 fm2_QQ==".toList = .ok [[65]] := by decide
+example : (Header.parseToks ",,".toList).length = 3 := by decide
+-- error count: a conditional holding two refusing caveats yields two leaves for one request
+example : (validate [(.ifPresent false (.cons (.action 0) (.cons (.tp [1] [2] [3]) .nil)) 0 : Cav Bytes)]
+    [{ Access.bare 0 0 with action := some 1 }]).length = 2 ∧
+    cavCountList [(.ifPresent false (.cons (.action 0) (.cons (.tp [1] [2] [3]) .nil)) 0 : Cav Bytes)] = 3 := by decide
+example : ∀ a ∈ [{ Access.bare 0 0 with action := some 1 }], a.wf.length ≤ 1 := by decide
 
 end Macaroon.Props.C12
 
@@ -281,3 +327,7 @@ end Macaroon.Props.C12
 #print axioms Macaroon.Props.C12.accepted_bodies_hashable
 #print axioms Macaroon.Props.C12.accepted_bodies_hashable_nested
 #print axioms Macaroon.Props.C12.typed_payload_no_amplification
+#print axioms Macaroon.Props.C12.header_no_amplification
+#print axioms Macaroon.Props.C12.validate_error_count
+#print axioms Macaroon.Props.C12.validate_error_count_bounded
+#print axioms Macaroon.Props.C12.flyio_access_one_wf_error
